@@ -587,6 +587,123 @@ def gen_name_session(rng):
     return '', srcs, reqs
 
 
+CALLBACKS1 = [   # callbacks meant for one argument x (element / index / accumulator forms are derived below)
+    ('ok', 'function(x) x * 2'),
+    ('default', 'function(x, scale=3) x * scale'),
+    ('toomany', 'function(x, scale) x * scale'),
+    ('toofew', 'function() 7'),
+    ('typeerr', 'function(x) x + {}'),
+    ('fieldof', 'function(x) x.nope'),
+    ('explicit', 'function(x) if x %% 3 == %d then error "cb%d" else x'),
+    ('deep', 'function(x) f(x * %d)'),
+    ('notfunc', '5'),
+    ('assertcb', 'function(x) assert x != %d : "as%d"; x'),
+]
+
+
+def gen_callback(rng):
+    kind, text = rng.choice(CALLBACKS1 + CALLBACKS1[:2] * 2)
+    if kind == 'explicit':
+        k = rng.randrange(3)
+        text = text % (k, k)
+    elif kind == 'deep':
+        text = text % rng.choice([5, 20, 60, 400])
+    elif kind == 'assertcb':
+        k = rng.randint(1, 4)
+        text = text % (k, k)
+    return kind, text
+
+
+def adapt(cb, shape):
+    """a one-argument callback used where the builtin passes (i, x) / (k, v) / (acc, x)"""
+    if shape == 1:
+        return cb
+    return 'function(a, b) (%s)(b)' % cb if rng_choice_adapt[0] else cb
+
+
+rng_choice_adapt = [True]
+
+
+def gen_builtin_value(rng):
+    """a library value produced by a function-taking builtin whose elements stay lazy (or whose
+    evaluation runs the callback), with a callback that works or fails in one of many ways.
+    Returns (expression over `base`/`obj`, kind of result: 'arr' | 'obj' | 'val')"""
+    kind, cb = gen_callback(rng)
+    rng_choice_adapt[0] = rng.random() < 0.7    # mostly adapt the arity, sometimes leave it wrong
+    b = rng.choice(['map', 'map', 'mapWithIndex', 'mapWithKey', 'filterMap', 'flatMap', 'makeArray', 'makeArray', 'filter',
+                    'foldl', 'foldr', 'sort', 'set', 'uniq', 'objectMapValues', 'comp', 'minArray', 'find'])
+    if b == 'map':
+        return 'std.map(%s, base)' % cb, 'arr', b, kind
+    if b == 'mapWithIndex':
+        return 'std.mapWithIndex(%s, base)' % adapt(cb, 2), 'arr', b, kind
+    if b == 'mapWithKey':
+        return 'std.mapWithKey(%s, obj)' % adapt(cb, 2), 'obj', b, kind
+    if b == 'filterMap':
+        return 'std.filterMap(function(x) x > 1, %s, base)' % cb, 'arr', b, kind
+    if b == 'flatMap':
+        return 'std.flatMap(function(x) [x, (%s)(x)], base)' % cb, 'arr', b, kind
+    if b == 'makeArray':
+        return 'std.makeArray(5, %s)' % cb, 'arr', b, kind
+    if b == 'filter':
+        return 'std.filter(function(x) (%s)(x) > 2, base)' % cb, 'arr', b, kind
+    if b == 'foldl':
+        return 'std.foldl(function(acc, x) acc + (%s)(x), base, 0)' % cb, 'val', b, kind
+    if b == 'foldr':
+        return 'std.foldr(function(x, acc) acc + (%s)(x), base, 0)' % cb, 'val', b, kind
+    if b == 'sort':
+        return 'std.sort(base, %s)' % cb, 'arr', b, kind
+    if b == 'set':
+        return 'std.set(base, %s)' % cb, 'arr', b, kind
+    if b == 'uniq':
+        return 'std.uniq(base, %s)' % cb, 'arr', b, kind
+    if b == 'objectMapValues':
+        return '{ [k]: (%s)(obj[k]) for k in std.objectFields(obj) }' % cb, 'obj', b, kind
+    if b == 'comp':
+        return '[(%s)(x) for x in base]' % cb, 'arr', b, kind
+    if b == 'minArray':
+        return 'std.minArray(base, %s)' % cb, 'val', b, kind
+    return 'std.find(3, std.map(%s, base))' % cb, 'arr', b, kind
+
+
+def gen_builtin_session(rng):
+    """shared library values = results of function-taking builtins held in the library object's field
+    thunks; requests force the SAME element several times (before / after a failure, under different
+    limits), whole values, lengths, and elements through a second root thunk"""
+    nv = rng.randint(2, 4)
+    vals = [gen_builtin_value(rng) for _ in range(nv)]
+    lib = ('local f(k) = if k == 0 then 0 else 1 + f(k - 1); local base = [1, 2, 3, 4], obj = { p: 1, q: 2, r: 3 }; { '
+           + ', '.join('r%d%s %s' % (i, rng.choice([':', '::']), v[0]) for i, v in enumerate(vals)) + ' }')
+    srcs = [lib]
+    for i, v in enumerate(vals):
+        if v[1] == 'arr':
+            idx = rng.sample(range(5), 3)
+            cl = ['L.r%d[%d]' % (i, j) for j in idx] + ['L.r%d' % i, 'std.length(L.r%d)' % i,
+                  '[L.r%d[%d], L.r%d[%d]]' % (i, idx[0], i, idx[0]), 'L.r%d[%d] + 1' % (i, idx[1]), 'std.reverse(L.r%d)[0]' % i]
+        elif v[1] == 'obj':
+            cl = ['L.r%d.p' % i, 'L.r%d.q' % i, 'L.r%d' % i, 'std.objectFields(L.r%d)' % i, 'L.r%d.q + L.r%d.r' % (i, i)]
+        else:
+            cl = ['L.r%d' % i, 'L.r%d + 1' % i, '[L.r%d]' % i]
+        for c in rng.sample(cl, min(len(cl), rng.randint(2, 3))):
+            srcs.append('local L = import "s0"; ' + c)
+    srcs.append('local L = import "s0"; L')
+    n = len(srcs)
+    reqs = []
+    hot = rng.randrange(1, n)          # one request is repeated: the same element again
+    for _ in range(rng.randint(3, 8)):
+        r = rng.random()
+        k = hot if rng.random() < 0.4 else rng.randrange(1, n)
+        lim = rng.choice(['', '', '', '@%x' % rng.randint(3, 30), '@%x' % rng.randint(20, 200)])
+        if r < 0.06:
+            reqs.append('G')
+        elif r < 0.14:
+            reqs.append('N%x' % k)
+        elif r < 0.7:
+            reqs.append('E%x%s' % (k, lim))
+        else:
+            reqs.append('M%x:%d%s' % (k, rng.randint(0, 1), lim))
+    return rng.choice(['big=4e20', 'big=4e20', 'gc=3;big=4e20']), srcs, reqs, ['%s/%s' % (v[2], v[3]) for v in vals]
+
+
 def src_field(srcs):
     return ';'.join(hxl(list(s.encode())) for s in srcs)
 
@@ -770,7 +887,11 @@ def corpus_machines():
 
 def check(run):
     rng = vlib.rng_for(run.seed, ID)
-    run.rule = ('name sessions: a field name computed at run time (+, std.char, %, join) used through o[e], e in o, objectHas/All/Ex, std.get, '
+    run.rule = ('builtin sessions: 2..4 library values = results of map / mapWithIndex / mapWithKey / filterMap / flatMap / makeArray / filter / '
+                'foldl / foldr / sort,set,uniq with keyF / comprehensions, with a callback that works, has a default, takes too many / too few '
+                'parameters, is not a function, fails by type, by explicit error or assertion on some elements, or recurses to a depth; 3..8 '
+                'requests forcing the same element repeatedly under different limits. '
+                'name sessions: a field name computed at run time (+, std.char, %, join) used through o[e], e in o, objectHas/All/Ex, std.get, '
                 'objectRemoveKey, %(key)s, mergePatch, extVar, native, super[e], e in super, on objects with/without the field and with/without '
                 'a super object, while other sources that contain the name statically are loaded/evaluated before, after, or never. '
                 'derive sessions: 2..3 shared library values with late-bound fields a/b/c built by literal / comprehension / + / super / '
@@ -829,6 +950,14 @@ def check(run):
             run.count('derive_' + kd)
         dsessions.append((opts, srcs, reqs))
     run_sessions(run, impl_exe, dsessions, 'd')
+    bsessions = []
+    for _ in range(8000 if thorough else 600):
+        opts, srcs, reqs, kinds = gen_builtin_session(rng)
+        for kd in kinds:
+            run.count('builtin_' + kd.split('/')[0])
+            run.count('callback_' + kd.split('/')[1])
+        bsessions.append((opts, srcs, reqs))
+    run_sessions(run, impl_exe, bsessions, 'b')
     nsessions = [gen_name_session(rng) for _ in range(8000 if thorough else 600)]
     run_sessions(run, impl_exe, nsessions, 'n')
 
